@@ -406,13 +406,16 @@ export class SchemaPrintingContext {
   constructor(options: SchemaPrintingContextOptions) {
     this.refPathTemplate = options.refPathTemplate;
     this.definitionContainerKey = options.definitionContainerKey;
-    this.collectedDefinitions = {};
-    this.inProgressDefinitions = {};
-    this.namedTypeSchemaOverrides = Object.fromEntries(
-      Object.entries(options.namedTypeSchemaOverrides ?? {}).map(([name, parser]) => [
-        name,
-        (parser as ParserFromRuntype)._runtype,
-      ]),
+    this.collectedDefinitions = Object.create(null);
+    this.inProgressDefinitions = Object.create(null);
+    this.namedTypeSchemaOverrides = Object.assign(
+      Object.create(null),
+      Object.fromEntries(
+        Object.entries(options.namedTypeSchemaOverrides ?? {}).map(([name, parser]) => [
+          name,
+          (parser as ParserFromRuntype)._runtype,
+        ]),
+      ),
     );
   }
 
